@@ -1,1 +1,5 @@
-import Gaftools.Spec.Order
+import Gaftools.Props.C07
+#print axioms Gaftools.C07.write_segs
+#print axioms Gaftools.C07.write_links
+#print axioms Gaftools.C07.write_links_subset
+#print axioms Gaftools.C07.read_write_read
